@@ -45,7 +45,9 @@ macro_rules! impl_prim_type_hash {
 
         impl MaxSizeOf for $ty {
             fn max_size_of() -> usize {
-                size_of::<$ty>()
+                // Maximized with the alignment, so that zero-sized types
+                // such as `()` have unit 1 (a unit of 0 is not a valid alignment).
+                core::cmp::max(size_of::<$ty>(), core::mem::align_of::<$ty>())
             }
         }
     )*};
@@ -260,7 +262,7 @@ impl<T: ?Sized> CopyType for PhantomData<T> {
 
 impl<T: ?Sized> MaxSizeOf for PhantomData<T> {
     fn max_size_of() -> usize {
-        0
+        core::mem::align_of::<Self>()
     }
 }
 
